@@ -1,4 +1,91 @@
+/-
+C16 — protocol decoding is total and memory-safe.
+
+Statement (properties.jsonl): for every byte string and key, plain and signed decoding terminate
+without out-of-bounds access, undefined behaviour or exceptions, and anything they accept has its
+fields taken verbatim from the input: re-encoding the decoded message reproduces a prefix of the
+input.
+
+In `Model/Message.lean` every pointer access of the C++ decoder is a checked read whose failure
+is the outcome `oob` (also `span.first/last` with a count beyond the span); the decoders are
+structurally recursive-free total functions (no fuel, no `partial`), so termination is by
+construction and the theorems below say that the failure outcome is unreachable — for every
+input, of any length, with any length fields, and for any MAC function.  Exceptions: the decoder
+contains no throwing operation other than allocation; `std::bad_alloc` is outside the model.
+-/
+import EphVerif.Lemmas.C16Decode
+import EphVerif.Lemmas.C16Size
 import EphVerif.Spec.Message
+
 namespace EphVerif.C16
-theorem placeholder : True := trivial
+open EphVerif.Message EphVerif.MessageSpec EphVerif.Gen.C15
+
+/-- generated-constant obligation: the tag is 32 bytes (`HmacSha256::kDigestSize`) -/
+theorem digest_size : kDigestSize = 32 := rfl
+
+/-- ∀ bytes, key, MAC: neither `decode` nor `decode_signed` reads outside its input. -/
+theorem total (mac : Bytes → Bytes → Bytes) : Total decode (decodeSigned mac) :=
+  ⟨decode_ne_oob, decodeSigned_ne_oob mac⟩
+
+/-- the same for the two inner parsers, whatever span they are handed -/
+theorem total_inner (d : Bytes) (pow : Bool) (t : Nat) :
+    parseAnnounce d pow ≠ .oob ∧ decodePayloadV1 t d ≠ .oob :=
+  ⟨parseAnnounce_ne_oob d pow, decodePayloadV1_ne_oob t d⟩
+
+/-- ∀ bytes m: `decode bytes = ok m → encode m` is a prefix of `bytes` (fields verbatim; the
+    decoder ignores what follows the message). -/
+theorem reencode_prefix : Verbatim encode decode := fun _ _ h => decode_prefix h
+
+/-- the signed decoder returns only messages whose wire form is a prefix of the signed body -/
+theorem prefix_signed (mac : Bytes → Bytes → Bytes) (buf key : Bytes) (m : Msg)
+    (h : decodeSigned mac buf key = .ok m) : encode m <+: buf := by
+  unfold decodeSigned spanFirst spanLast at h
+  have hd : kDigestSize = 32 := rfl
+  split at h
+  · cases h
+  · dsimp only at h
+    rw [if_pos (by omega), if_pos (by omega)] at h
+    simp only [chk_some] at h
+    split at h
+    · cases h
+    · exact (decode_prefix h).trans (List.take_prefix _ _)
+
+/-- accepted messages carry a supported version, so `encode` writes it back unchanged -/
+theorem accepted_version {buf : Bytes} {m : Msg} (h : decode buf = .ok m) :
+    isSupportedVersion m.version = true ∧ Message.clampVersion m.version = m.version := by
+  unfold decode at h
+  split at h
+  · cases h
+  · simp only [chk_eq_ok] at h
+    obtain ⟨version, _, type, _, h⟩ := h
+    split at h
+    · cases h
+    · rename_i hsup
+      rw [map_eq_ok] at h
+      obtain ⟨p, _, rfl⟩ := h
+      have hs : isSupportedVersion version = true := by simpa using hsup
+      exact ⟨hs, clampVersion_of_supported hs⟩
+
+/-- LP64: the size_t sums of the decoder stay below 2^64 (no wrap-around), for any length fields -/
+theorem sizes_fit {d : Bytes} {el ml al dl extra : Nat} (h1 : rdU32 d 4 = some el) (h2 : rdU32 d 8 = some ml)
+    (h3 : rdU32 d 12 = some al) (h4 : rdU32 d 4 = some dl) (he : extra ≤ 8) :
+    16 + kChunkIdSize + kPeerIdSize + el + ml + al + extra < 2 ^ 64 ∧ 8 + kChunkIdSize + dl < 2 ^ 64 :=
+  ⟨announce_expectedSize_fits h1 h2 h3 he, chunk_expected_fits h4⟩
+
+/-! ### non-vacuity: inputs that reach the interesting branches, evaluated on the model -/
+
+/-- announce header claiming three lengths of 2^32-1 in a 90-byte buffer: rejected, not `oob` -/
+example : decode ([4, 1] ++ [0, 0, 0, 60] ++ List.replicate 12 255 ++ List.replicate 72 0) = .reject := by decide
+/-- an acknowledgement with flag byte 1 is accepted and re-encodes to itself … -/
+example : decode ([1, 4, 1] ++ List.replicate 64 0) = .ok ⟨1, 4, .ack (List.replicate 32 0) (List.replicate 32 0) true⟩ := by
+  decide
+/-- … with trailing bytes it is still accepted (prefix, not equality) … -/
+example : decode ([1, 4, 1] ++ List.replicate 64 0 ++ [9, 9]) = .ok ⟨1, 4, .ack (List.replicate 32 0) (List.replicate 32 0) true⟩ := by
+  decide
+/-- … and with flag byte 2 it is refused (the repaired behaviour; before the fix it decoded to `true`
+    and re-encoded with flag 1, which is not a prefix of the input) -/
+example : decode ([1, 4, 2] ++ List.replicate 64 0) = .reject := by decide
+example : decode [] = .reject ∧ decode [4] = .reject ∧ decode [4, 1] = .reject ∧ decode [0, 2] = .reject ∧ decode [4, 7] = .reject := by
+  decide
+
 end EphVerif.C16
